@@ -216,3 +216,48 @@ func (lp *Loop) ExitBlocks() []*ssa.BasicBlock {
 	}
 	return out
 }
+
+// IterationCanSkip: within one iteration of the loop (from the first
+// instruction of the body to the next evaluation of the header, never leaving
+// the loop) there is a path that crosses no cut instruction and no cut edge.
+func (lp *Loop) IterationCanSkip(cutInstr func(ssa.Instruction) bool, cutEdge func(b *ssa.BasicBlock, succ int) bool) bool {
+	var bodyEntry *ssa.BasicBlock
+	for _, s := range lp.Header.Succs {
+		if lp.Body[s] && s != lp.Header {
+			bodyEntry = s
+		}
+	}
+	if bodyEntry == nil {
+		return false
+	}
+	visited := map[*ssa.BasicBlock]bool{bodyEntry: true}
+	work := []*ssa.BasicBlock{bodyEntry}
+	for len(work) > 0 {
+		b := work[len(work)-1]
+		work = work[:len(work)-1]
+		stopped := false
+		for _, in := range b.Instrs {
+			if cutInstr != nil && cutInstr(in) {
+				stopped = true
+				break
+			}
+		}
+		if stopped {
+			continue
+		}
+		for i, s := range b.Succs {
+			if cutEdge != nil && cutEdge(b, i) {
+				continue
+			}
+			if s == lp.Header {
+				return true
+			}
+			if !lp.Body[s] || visited[s] {
+				continue
+			}
+			visited[s] = true
+			work = append(work, s)
+		}
+	}
+	return false
+}
